@@ -1,17 +1,61 @@
 //! tzverif: conformance harness binding the TLA+ specification of tz-rs to the crate.
-//!   tzverif run <in.ndjson> <out.ndjson>   execute every {"op","a"[,"x"]} line against the crate, add "r" (and "m" when "x" is present)
-//!   tzverif one '<json line>'              execute a single event and print it
+//!   tzverif run <in.ndjson> <out.ndjson> [--mem] [--flush]
+//!        execute every {"op","a"[,"x"]} line against the crate, add "r" (and "m" when "x"/"xerr" is present);
+//!        --mem adds "mem": peak bytes allocated during the call; --flush writes each line at once (so that a hang or an
+//!        abort of the process can be attributed to the event after the last complete line)
+//!   tzverif threads <in.ndjson> <out.ndjson> <nthreads>
+//!        run the session sequentially, then again on <nthreads> threads sharing the same zone values; every thread's result for
+//!        every event must equal the sequential one ("tmis": number of threads that disagreed)
+//!   tzverif one '<json line>'...     execute single events and print them
 mod exec;
 mod wire;
 
 use serde_json::Value;
+use std::alloc::{GlobalAlloc, Layout, System};
 use std::io::{BufRead, BufReader, BufWriter, Write};
+use std::sync::atomic::{AtomicUsize, Ordering};
 
-fn run_line(line: &str, st: &mut exec::State) -> Value {
+/// Counting allocator (in the harness, not in tz-rs): current and peak bytes, used for the allocation bound of C07.
+struct Counting;
+static CUR: AtomicUsize = AtomicUsize::new(0);
+static PEAK: AtomicUsize = AtomicUsize::new(0);
+unsafe impl GlobalAlloc for Counting {
+    unsafe fn alloc(&self, l: Layout) -> *mut u8 {
+        let p = System.alloc(l);
+        if !p.is_null() {
+            let c = CUR.fetch_add(l.size(), Ordering::Relaxed) + l.size();
+            PEAK.fetch_max(c, Ordering::Relaxed);
+        }
+        p
+    }
+    unsafe fn dealloc(&self, p: *mut u8, l: Layout) {
+        CUR.fetch_sub(l.size(), Ordering::Relaxed);
+        System.dealloc(p, l)
+    }
+    unsafe fn realloc(&self, p: *mut u8, l: Layout, new: usize) -> *mut u8 {
+        let q = System.realloc(p, l, new);
+        if !q.is_null() {
+            if new >= l.size() {
+                let c = CUR.fetch_add(new - l.size(), Ordering::Relaxed) + (new - l.size());
+                PEAK.fetch_max(c, Ordering::Relaxed);
+            } else {
+                CUR.fetch_sub(l.size() - new, Ordering::Relaxed);
+            }
+        }
+        q
+    }
+}
+#[global_allocator]
+static GLOBAL: Counting = Counting;
+
+fn run_line(line: &str, st: &mut exec::State, mem: bool) -> Value {
     let mut v: Value = serde_json::from_str(line).expect("input line is not JSON");
     let op = v.get("op").and_then(|x| x.as_str()).expect("line without op").to_string();
     let a = v.get("a").cloned().unwrap_or(Value::Null);
+    let base = CUR.load(Ordering::Relaxed);
+    PEAK.store(base, Ordering::Relaxed);
     let r = exec::exec(&op, &a, st);
+    let peak = PEAK.load(Ordering::Relaxed).saturating_sub(base);
     let mut m = v.get("x").map(|x| x.as_array().map(|xs| xs.iter().any(|e| *e == r)).unwrap_or(false));
     if v.get("xerr").is_some() {
         // the specification only says "refused": any error kind matches
@@ -22,7 +66,14 @@ fn run_line(line: &str, st: &mut exec::State) -> Value {
     if let Some(m) = m {
         obj.insert("m".into(), Value::from(m as u8));
     }
+    if mem {
+        obj.insert("mem".into(), Value::from(peak as u64));
+    }
     v
+}
+
+fn read_lines(path: &str) -> Vec<String> {
+    BufReader::new(std::fs::File::open(path).expect("cannot open input")).lines().map(|l| l.unwrap()).filter(|l| !l.trim().is_empty()).collect()
 }
 
 fn main() {
@@ -31,6 +82,8 @@ fn main() {
     let args: Vec<String> = std::env::args().collect();
     match args.get(1).map(|s| s.as_str()) {
         Some("run") => {
+            let mem = args.iter().any(|a| a == "--mem");
+            let flush = args.iter().any(|a| a == "--flush");
             let inp = BufReader::new(std::fs::File::open(&args[2]).expect("cannot open input"));
             let mut out = BufWriter::new(std::fs::File::create(&args[3]).expect("cannot create output"));
             let mut st = exec::State::new();
@@ -41,27 +94,80 @@ fn main() {
                 if line.trim().is_empty() {
                     continue;
                 }
-                let v = run_line(&line, &mut st);
+                let v = run_line(&line, &mut st, mem);
                 if v.get("m").and_then(|m| m.as_u64()) == Some(0) {
                     mism += 1;
                 }
                 serde_json::to_writer(&mut out, &v).unwrap();
                 out.write_all(b"\n").unwrap();
+                if flush {
+                    out.flush().unwrap();
+                }
                 n += 1;
             }
             out.flush().unwrap();
             println!("{{\"events\":{n},\"vector_mismatches\":{mism}}}");
         }
+        Some("threads") => {
+            let lines = read_lines(&args[2]);
+            let nthreads: usize = args[4].parse().expect("nthreads");
+            // sequential pass: also yields, for every event, the session state in force *before* it (zones are shared by Arc)
+            let mut st = exec::State::new();
+            let mut seq: Vec<Value> = Vec::new();
+            let mut states: Vec<exec::State> = Vec::new();
+            for l in &lines {
+                states.push(st.clone());
+                seq.push(run_line(l, &mut st, false));
+            }
+            let lines = std::sync::Arc::new(lines);
+            let states = std::sync::Arc::new(states);
+            let mut handles = Vec::new();
+            for t in 0..nthreads {
+                let lines = lines.clone();
+                let states = states.clone();
+                handles.push(std::thread::spawn(move || {
+                    // every thread walks all events, starting at a different place, each against the shared zone of that event
+                    let n = lines.len();
+                    let mut res: Vec<(usize, Value)> = Vec::with_capacity(n);
+                    for k in 0..n {
+                        let i = (k + t * 7919) % n;
+                        let mut local = states[i].clone();
+                        let v = run_line(&lines[i], &mut local, false);
+                        res.push((i, v.get("r").cloned().unwrap_or(Value::Null)));
+                    }
+                    res
+                }));
+            }
+            let mut tmis = vec![0u64; seq.len()];
+            for h in handles {
+                for (i, r) in h.join().expect("worker thread died") {
+                    if seq[i].get("r") != Some(&r) {
+                        tmis[i] += 1;
+                    }
+                }
+            }
+            let mut out = BufWriter::new(std::fs::File::create(&args[3]).expect("cannot create output"));
+            let mut bad = 0u64;
+            for (i, mut v) in seq.into_iter().enumerate() {
+                if tmis[i] > 0 {
+                    bad += 1;
+                }
+                v.as_object_mut().unwrap().insert("tmis".into(), Value::from(tmis[i]));
+                serde_json::to_writer(&mut out, &v).unwrap();
+                out.write_all(b"\n").unwrap();
+            }
+            out.flush().unwrap();
+            println!("{{\"events\":{},\"vector_mismatches\":0,\"thread_mismatches\":{bad}}}", tmis.len());
+        }
         Some("one") => {
             let mut st = exec::State::new();
-            // optional zone-setting event first
             for l in &args[2..] {
-                let v = run_line(l, &mut st);
+                let v = run_line(l, &mut st, false);
                 println!("{}", serde_json::to_string(&v).unwrap());
             }
         }
         _ => {
-            eprintln!("usage: tzverif run <in> <out> | one <json>...");
+            eprintln!("usage: tzverif run <in> <out> [--mem] [--flush] | threads <in> <out> <n> | one <json>...");
             std::process::exit(2);
         }
     }
